@@ -956,6 +956,37 @@ i = arrayIndexOf(a, isTwo)
 systemLog('index ' + i)
 return a
 '''),
+    ('one include statement with two scripts (consecutive include lines), one of them nested', "systemLog('a')\ninclude 'inc.bare'\ninclude 'nested.bare'\nsystemLog('z')\n"),
+    ('arrayIndexOf with a match function', '''
+function isTwo(v):
+    systemLog('isTwo ' + v)
+    return v == 2
+endfunction
+a = arrayNew(1, 3, 2, 5)
+i = arrayIndexOf(a, isTwo)
+systemLog('index ' + i)
+j = arrayIndexOf(a, isTwo, 3)
+systemLog('index ' + j)
+'''),
+    ('arrayLastIndexOf with a match function', '''
+function isOdd(v):
+    r = v % 2
+    return r == 1
+endfunction
+a = arrayNew(1, 4, 6, 8)
+i = arrayLastIndexOf(a, isOdd)
+systemLog('index ' + i)
+return i
+'''),
+    ('arraySort with a compare function', '''
+function desc(a, b):
+    systemLog('cmp')
+    return b - a
+endfunction
+a = arrayNew(1, 3, 2)
+arraySort(a, desc)
+systemLog('sorted ' + arrayJoin(a, ','))
+'''),
     ('recursion', '''
 function down(n):
     systemLog('down ' + n)
@@ -998,6 +1029,41 @@ endfor
 '''),
 ]
 
+_BX = dict(BUDGET_EXTRA)
+
+
+def _include_floor(prog, library, depth=0):
+    """lower bound of the statements a program with top-level include lines starts: its own statements by the structured reading (a run of consecutive include lines counted
+    once - the parser may merge them) plus, per include line, the statements of the included sample file, recursively.  None when the program has no top-level include, has an
+    include inside a block, or is not evaluable by the reference (then no verdict is drawn from it)."""
+    tops = [s for s in prog if s.kind == 'include']
+    if not tops or depth > 4 or len(tops) != len([s for s in all_stmts(prog) if s.kind == 'include']):
+        return None
+    if any(s.extra.get('system') or s.name not in INCLUDE_FILES for s in tops):
+        return None
+    try:
+        ref = ProgEvaluator(prog, {}, 'retest', library=library)
+        if ref.run()[0] != 'value':
+            return None
+    except NotEvaluable:
+        return None
+    groups = sum(1 for i, s in enumerate(prog) if s.kind == 'include' and (i == 0 or prog[i - 1].kind != 'include'))
+    total = ref.steps - len(tops) + groups
+    for s in tops:
+        sub_prog = barefront.parse_program(INCLUDE_FILES[s.name])
+        if any(x.kind == 'include' for x in sub_prog):
+            sub = _include_floor(sub_prog, library, depth + 1)
+        else:
+            try:
+                r2 = ProgEvaluator(sub_prog, {}, 'retest', library=library)
+                sub = r2.steps if r2.run()[0] == 'value' else None
+            except NotEvaluable:
+                sub = None
+        if sub is None:
+            return None
+        total += sub
+    return total
+
 
 def run_budget(repo, tier='quick', rule='E9r'):
     """metamorphic sweep of the statement limit on whole programs.  With N = the statement count of the unlimited run (options['statementCount']):
@@ -1030,6 +1096,11 @@ def run_budget(repo, tier='quick', rule='E9r'):
         if not isinstance(N, int) or isinstance(N, bool) or N < 0:
             problems.append((desc, f'program "{desc}": options[\'statementCount\'] after the unlimited run is {N!r}, not the number of statements started'))
             continue
+        floor = _include_floor(prog, subj.library) if base[0] == 'value' else None
+        if floor is not None and N < floor:
+            problems.append((desc, f'program "{desc}": the unlimited run reports statementCount = {N}, but the top-level script and the scripts it includes (each evaluated by the '
+                                   f'structured reading, consecutive include lines counted as one statement) start {floor} statements: statements of included scripts count'))
+            continue
         try:
             ref = ProgEvaluator(prog, _copy(init), 'retest', library=subj.library)
             rr = ref.run()
@@ -1039,7 +1110,8 @@ def run_budget(repo, tier='quick', rule='E9r'):
                 continue
         except NotEvaluable:
             pass
-        limits = sorted(set([1, 2, 3, N // 3, N // 2, N - 2, N - 1, N, N + 1, N + 2] + (list(range(1, N + 3)) if N <= (60 if tier == 'thorough' else 25) else [])))
+        full = 120 if tier == 'thorough' else (60 if gname is None and any(text is t for _d, t in BUDGET_EXTRA) else 25)      # the hand-written budget programs: every limit
+        limits = sorted(set([1, 2, 3, N // 3, N // 2, N - 2, N - 1, N, N + 1, N + 2] + (list(range(1, N + 3)) if N <= full else [])))
         for L in limits:
             if L < 1:
                 continue
@@ -1063,11 +1135,11 @@ def run_budget(repo, tier='quick', rule='E9r'):
                     problems.append((desc, f'program "{desc}" under the limit {L}: aborted with statementCount = {cnt}; the abort happens exactly when statement {L + 1} would start'))
                     break
     # one options object reused for several runs: each run starts its own count, whatever way the previous run ended (completed, runtime error, limit abort)
-    first = [('a run that completes', BUDGET_EXTRA[5][1], 0), ('a run that ends with a runtime error', "x = 1\nsystemLog('a')\nfunction f(n):\n    return nope(n)\nendfunction\nf(1)\n", 0),
+    first = [('a run that completes', _BX['function called in a loop'], 0), ('a run that ends with a runtime error', "x = 1\nsystemLog('a')\nfunction f(n):\n    return nope(n)\nendfunction\nf(1)\n", 0),
              ('a run that ends with a runtime error inside nested calls', "function a(n):\n    return b(n)\nendfunction\nfunction b(n):\n    return missing(n)\nendfunction\na(1)\n", 0),
-             ('a run aborted by the limit', BUDGET_EXTRA[4][1], 7)]
+             ('a run aborted by the limit', _BX['recursion'], 7)]
     for fdesc, ftext, flimit in first:
-        for desc, text in (BUDGET_EXTRA[5], BUDGET_EXTRA[4]):
+        for desc, text in (('function called in a loop', _BX['function called in a loop']), ('recursion', _BX['recursion'])):
             fresh = subj.run(text, {}, max_statements=0)
             r1 = subj.run(ftext, {}, max_statements=flimit)
             r2 = subj.run(text, {}, max_statements=0, reuse=r1[4])
